@@ -4,7 +4,7 @@ behaviour-preserving refactoring applied (from /tmp/reftask/<id>/out/<k>/ or /ve
 usage: tools_ref_matrix.py <root> [name-prefix...]"""
 import json, os, shutil, subprocess, sys, concurrent.futures, tempfile
 VERIF = os.path.dirname(os.path.abspath(__file__))
-PROPS = ["C%02d" % i for i in range(1, 21)]
+PROPS = os.environ.get("VCHECK_PROPS", "").split() or ["C%02d" % i for i in range(1, 21)]
 def run(name, patch):
     work = tempfile.mkdtemp(prefix="rm-" + name.replace("/", "_") + "-", dir="/tmp")
     try:
